@@ -262,7 +262,7 @@ def bodyLoop (atmost : List SumAgg.APred) (gs : Groups) (i : Nat) : List Nat →
     | some blit =>
       let blit' ← (match aggOfBLit blit with
         | some agg =>
-          if agg.f == .sum || agg.f == .sump then do
+          if agg.f == .sum then do
             let es ← elemsLoop atmost gs i b (List.range agg.elems.length)
             pure (BLit.lit (agg.sign, .bagg agg.line agg.col agg.lg agg.f es agg.rg))
           else pure blit
